@@ -29,6 +29,8 @@ def name_axis(name):
     if name in ATTR_AXIS:
         return ATTR_AXIS[name]
     toks = name.lower().split("_")
+    if len(toks) == 2 and toks[0] in ("kernel", "stride", "dilation", "filter", "pad", "padding", "upscale") and toks[1] in ("h", "w"):
+        return "H" if toks[1] == "h" else "W"
     for t in (toks[-1],):
         if t in ("x", "y", "z", "width", "height", "depth", "top", "bottom", "left", "right"):
             return AXIS_OF_WORD[t]
@@ -152,8 +154,12 @@ class RoleChecker:
                         yield ("bad", txt, f"keyword {n.arg} is a {ta}-axis quantity but its value uses {', '.join(f'{s} ({a})' for a, s in bad)}")
                     else:
                         yield ("ok", txt, "")
-            elif isinstance(n, ast.Compare) and len(n.ops) == 1:
-                leaves = self.axes(n.left) + self.axes(n.comparators[0])
+            elif isinstance(n, ast.Compare) and len(n.ops) >= 1 and all(isinstance(o, (ast.Eq, ast.NotEq, ast.Lt, ast.LtE, ast.Gt, ast.GtE)) for o in n.ops):
+                if len(n.ops) > 1 and any(isinstance(x, ast.Constant) for x in [n.left] + n.comparators):
+                    continue  # `a.height == a.width == 1`: every operand is compared with the constant
+                leaves = self.axes(n.left)
+                for cmp_ in n.comparators:
+                    leaves = leaves + self.axes(cmp_)
                 kinds = {a for a, _ in leaves}
                 if len(leaves) >= 2:
                     txt = norm(n)
